@@ -777,6 +777,8 @@ def check_tetra(case):
         weights = case.get("weights")
         grid = GridTetra(system, length, IBZ_tetra=T0.copy(), weights=None if weights is None else list(weights), **kw)
     K_list = grid.get_K_list()
+    snapshot0 = [(np.array(K.K, copy=True), np.array(K.vertices, copy=True), float(K.factor), int(K.refinement_level))
+                 for K in K_list]
     if not np.array_equal(np.asarray(grid.FFT), np.array(FFT)):
         raise Violation("tetra:NKFFT", f"{grid.FFT} requested {FFT}")
     rng = rng_of(case["rs"])
@@ -849,6 +851,16 @@ def check_tetra(case):
         amb += tetra_cover(K_list, P, D, "after divides")
     if len(K_list) > 4000:
         raise RuntimeError("harness: tetra case too large")
+    # the grid object must hand out the same starting list again (a second run() on the same grid, after the first
+    # one has refined its own list): same tetrahedra, same weights, unrefined
+    K_again = grid.get_K_list()
+    if len(K_again) != len(snapshot0):
+        raise Violation("tetra:second-K-list", f"second get_K_list() returns {len(K_again)} tetrahedra, first {len(snapshot0)}")
+    for K, (k0, v0, f0, l0) in zip(K_again, snapshot0):
+        if (np.max(np.abs(np.asarray(K.K) - k0)) > 0 or np.max(np.abs(np.asarray(K.vertices) - v0)) > 0
+                or float(K.factor) != f0 or int(K.refinement_level) != l0 or K.was_evaluated_flag):
+            raise Violation("tetra:second-K-list", f"second get_K_list() on the same grid differs from the first after "
+                                                   f"{ndiv_done} divisions: factor {K.factor} vs {f0}")
     return ok(n_start > len(T0) or ndiv_done > 0, start, case["lat"]["kind"], f"start-count<={10 ** len(str(n_start))}",
               f"divides={ndiv_done}", "split-at-construction" if n_start > len(T0) else None,
               "weights-given" if weights is not None else None, "by_volume" if case["by_volume"] else None,
